@@ -1,30 +1,39 @@
 import Percival.Driver.Loop
 import Percival.Driver.Dsmon
+import Percival.Driver.Afmon
+import Percival.Spec.UpMon
 /-!
-`pmodel upmon`: L1 rules for harness/h_af_upper.c (C14, second component — observed by fault enumeration, not
-proved; there is no Lean model of these layers).  An op may report failure only if an allocation request was
-refused while it ran; the harness's own integrity checks (`BAD=…`: wrong data, callback count, an operation that
-never completes although nothing failed) must not fire; after `end` no library block may be live.
+`pmodel upmon`: L1 rules for harness/h_af_upper.c (C14, components `upper` — observed by fault enumeration — and
+`upstart`).  Thin by construction: the operation line is reduced to its `Spec.UpMon.Kind`, the part of the
+implementation's answer before ` | ` is parsed into `Spec.UpMon.Ans`, `Spec.UpMon.monStep` judges, the verdict is printed.
 -/
 namespace Percival.Driver.Upmon
-open Percival.Driver
+open Percival.Driver Percival.Spec.UpMon
 open Percival.Driver.Dsmon (natField)
+open Percival.Driver.Afmon (numOf)
 
-def step (s : Unit) (op ans : List String) : Unit × String :=
-  match op with
-  | ["failat", _] | ["failfrom", _] | ["failoff"] => (s, if ans = ["ok"] then "ok" else "bad answer")
-  | ["end"] =>
-    (s, if ans.take 3 = ["end", "live=0", "leaked=0"] then "ok"
-        else "bad memory still allocated (live) or a registration left behind (leaked) after the objects were released and the exit handlers ran")
-  | _ =>
-    match ans.find? (·.startsWith "BAD=") with
-    | some b => (s, "bad " ++ b)
-    | none =>
-      match ans.head?, natField ans "rf" with
-      | some "ok", some _ => (s, "ok")
-      | some "skip", _ => (s, if ans = ["skip"] then "ok" else "bad answer")
-      | some "fail", some rfn => (s, if rfn > 0 then "ok" else "bad failure reported although no allocation was refused")
-      | _, _ => (s, "bad unparsable answer")
+def parseKind : List String → Kind
+  | ["failat", _] | ["failfrom", _] | ["failoff"] => .sched
+  | ["end"] => .end_
+  | _ => .call
+
+def parseHead : String → Head
+  | "ok" => .ok | "fail" => .fail | "skip" => .skip | "end" => .end_ | _ => .other
+
+def parseAns (toks : List String) : Ans :=
+  match toks with
+  | [] => {}
+  | h :: _ =>
+    { head := parseHead h
+      ntoks := toks.length
+      rf := natField toks "rf"
+      bad := toks.find? (·.startsWith "BAD=")
+      live := numOf "live" toks[1]?
+      leaked := numOf "leaked" toks[2]? }
+
+def step (s : MState) (op ans : List String) : MState × String :=
+  let r := monStep s (parseKind op) (parseAns ans)
+  (r.1, match r.2 with | none => "ok" | some why => "bad " ++ why)
 
 def main (_args : List String) : IO UInt32 := loopMon () step
 
